@@ -58,7 +58,8 @@ two warn exits, fork asserts, branch fork / sole reader / warn).
 * **Oracle** (harness/c14.py): the generator's ground-truth array (it placed every value itself; negative IOPATH and
   INTERCONNECT values, all-zero entries and entries that are not all-zero although `max(max(delvals)) == 0` included) against
   the real result; this, not the model, decides violations (classes `interconnect-lexmax-skip` = D34, `repeated-cell-block` = D6,
-  `sdf-annotation`). -/
+  `sdf-annotation`).
+* **Composition with C04/C03** (timing data path, from the SDF text to the WaveSim waveforms): Props/C14Wave.lean. -/
 namespace KV.C14
 open KV.Sdf
 
